@@ -12,7 +12,7 @@ from simkit.known import VERIF
 PROPERTY = "C19"
 ENGINE = "session"
 LEVEL = "exploration"
-BUDGET = {"quick": (15000, 45), "thorough": (800000, 540)}
+BUDGET = {"quick": (40000, 60), "thorough": (800000, 540)}
 RULE = ("seeded histories of default validations (Document / Section / Property), custom validations "
         "(reset=True + marker rule + run_validation/report), object creation, cardinality changes, "
         "saves, loads and restarts on documents incl. deliberately invalid ones; purity (empty "
